@@ -1,0 +1,6 @@
+//go:build !verif
+
+package subscriber
+
+// verifGate is a no-op unless the package is built with the "verif" tag.
+func verifGate(*Manager, string) {}
